@@ -1,18 +1,26 @@
-# C08 violation 1: nstr of a short decimal at high working precision raises ValueError
 import sys, os; sys.path.insert(0, os.getcwd())
-from mpmath import mp, mpf, nstr
-from fractions import Fraction
-mp.dps = 5000
+# str/repr/nstr of a finite mpf whose decimal exponent has more digits than the
+# interpreter's int->str limit raises ValueError (to_str does str(exponent)),
+# while from_str reads such exponents in pieces (str_to_int).
+# Default: limit lowered to its minimum 640 (runs in 1 s).  FULL=1: interpreter
+# default limit 4300, x = 2**(34*10**4299) (same error, takes about 33 s).
+full = os.environ.get('FULL') == '1'
+if not full:
+    sys.set_int_max_str_digits(640)
+from mpmath import mp, mpf, ldexp, nstr
+E = 34*10**4299 if full else 4*10**640
+x = ldexp(mpf(1), E)
+print("input: x = ldexp(mpf(1), %s), finite: %s" % ("34*10**4299" if full else "4*10**640", mp.isfinite(x)))
 bad = 0
-for lit, want in [('0.1', '0.1'), ('0.7', '0.7'), ('2.5e-7', '2.5e-7')]:
-    x = mpf(lit)                      # 16613-bit mantissa, |x - lit| < 2^-16613
-    man, exp = x.man, x.exp
-    exact = Fraction(int(man)) * Fraction(2)**int(exp)
-    assert abs(exact - Fraction(lit)) < Fraction(1, 10**4000)   # so the nearest 6-digit decimal is `want`
+for name, f in [("nstr(x,1)", lambda: nstr(x, 1)), ("str(x)", lambda: str(x)), ("repr(x)", lambda: repr(x))]:
     try:
-        got = nstr(x, 6)
-    except Exception as e:
-        got = 'raised %s: %s' % (type(e).__name__, str(e)[:70])
-    print('mp.dps=5000  nstr(mpf(%r), 6): observed %s | expected %r' % (lit, got, want))
-    if got != want: bad = 1
+        s = f()
+        print(name, "->", s[:30], "... (ok)")
+    except Exception as ex:
+        bad = 1
+        print(name, "observed:", repr(ex)[:110])
+print("expected: a literal d.ddde+NNN... whose value is nearest to x (and eval(repr(x)) == x)")
+# the parsing side copes with such an exponent:
+y = mpf('1e+' + '1' + '0'*(4400 if full else 700))
+print("mpf('1e+1000...0') parses fine:", mp.isfinite(y))
 sys.exit(bad)
